@@ -158,50 +158,42 @@ Proof.
   intros H. injection H as <-. reflexivity.
 Qed.
 
-Lemma fent_depth_in k e m :
-  In (k, e) m ->
-  (fent_depth e <= (fix go (m : list (tkey * fent)) : nat :=
-                      match m with [] => 0%nat | (_, e') :: r => Nat.max (fent_depth e') (go r) end) m)%nat.
-Proof.
-  induction m as [|[k' e'] m IH]; intros H; [contradiction|].
-  destruct H as [H|H]; [injection H as -> ->; lia|]. specialize (IH H). lia.
-Qed.
+Lemma fent_format_hash fmt sep sep2 m :
+  fent_format (FEHash fmt sep sep2 (Some m)) =
+  bind (bind (new_format_map m) (fun fm => ROk (CfMap fm))) (fun cf => parse_format fmt (to_sep sep) (to_sep sep2) cf).
+Proof. reflexivity. Qed.
+
+Lemma fent_depth_hash fmt sep sep2 m : fent_depth (FEHash fmt sep sep2 (Some m)) = S (fmap_depth m).
+Proof. reflexivity. Qed.
 
 Lemma fent_format_ok : forall d e f,
-  (fent_depth e <= d)%nat -> fent_format e = ROk f -> f_nodef f /\ (S (fdepth f) <= fent_depth e)%nat.
+  (fent_depth e <= d)%nat -> fent_format e = ROk f -> f_nodef f /\ (fdepth f <= fent_depth e)%nat.
 Proof.
   induction d as [|d IH]; intros e f Hd He.
   - destruct e as [s|fmt sep sep2 [m|]]; cbn in Hd; lia.
-  - destruct e as [s|fmt sep sep2 sf].
+  - destruct e as [s|fmt sep sep2 [m|]].
     + cbn [fent_format] in He. pose proof (parse_format_cf _ _ _ _ _ He) as Hcf.
       split; [apply f_nodef_cf; rewrite Hcf; exact I | rewrite fdepth_cf, Hcf; cbn; lia].
-    + cbn [fent_format] in He. destruct sf as [m|].
-      * (* string_formats given *)
-        match type of He with bind (bind ?g _) _ = _ => destruct g as [fm|] eqn:Eg end; cbn [bind] in He; [|discriminate].
-        pose proof (parse_format_cf _ _ _ _ _ He) as Hcf.
-        assert (Hm : m_nodef fm /\ (mdepth fm <= (fix go (m : list (tkey * fent)) : nat :=
-                                                    match m with [] => 0%nat | (_, e') :: r => Nat.max (fent_depth e') (go r) end) m - 0)%nat
-                                   /\ (m <> [] -> (S (mdepth fm) <= (fix go (m : list (tkey * fent)) : nat :=
-                                                    match m with [] => 0%nat | (_, e') :: r => Nat.max (fent_depth e') (go r) end) m)%nat)).
-        { cbn [fent_depth] in Hd.
-          assert (Hall : forall k e', In (k, e') m -> (fent_depth e' <= d)%nat).
-          { intros k e' Hin. pose proof (fent_depth_in k e' m Hin). lia. }
-          clear Hd He Hcf. revert fm Eg. induction m as [|[k e'] m IHm]; intros fm Eg.
-          - injection Eg as <-. repeat split; [constructor | cbn; lia | congruence].
-          - destruct (fent_format e') as [f'|] eqn:Ef; cbn [bind] in Eg; [|discriminate].
-            match type of Eg with bind ?g _ = _ => destruct g as [r'|] eqn:Er end; cbn [bind] in Eg; [|discriminate].
-            injection Eg as <-.
-            destruct (IH e' f' (Hall k e' (or_introl eq_refl)) Ef) as [Hn1 Hd1].
-            destruct (IHm (fun k0 e0 H0 => Hall k0 e0 (or_intror H0)) r' Er) as (Hn2 & Hd2 & Hd3).
-            repeat split.
-            + constructor; [exact Hn1 | exact Hn2].
-            + cbn [mdepth fold_right snd]. unfold mdepth in Hd2. lia.
-            + intros _. cbn [mdepth fold_right snd]. unfold mdepth in Hd2. lia. }
-        destruct Hm as (Hn & Hd2 & _).
-        split; [apply f_nodef_cf; rewrite Hcf; exact Hn|].
-        rewrite fdepth_cf, Hcf. cbn [cdepth fent_depth]. lia.
-      * cbn [bind] in He. pose proof (parse_format_cf _ _ _ _ _ He) as Hcf.
-        split; [apply f_nodef_cf; rewrite Hcf; exact I | rewrite fdepth_cf, Hcf; cbn; lia].
+    + rewrite fent_format_hash in He. rewrite fent_depth_hash in Hd |- *.
+      destruct (new_format_map m) as [fm|] eqn:Eg; cbn [bind] in He; [|discriminate].
+      pose proof (parse_format_cf _ _ _ _ _ He) as Hcf.
+      assert (Hm : m_nodef fm /\ (mdepth fm <= fmap_depth m)%nat).
+      { assert (Hd' : (fmap_depth m <= d)%nat) by lia. clear Hd He Hcf.
+        revert fm Eg Hd'. induction m as [|[k e'] m IHm]; intros fm Eg Hd'.
+        - injection Eg as <-. split; [constructor | cbn; lia].
+        - cbn [new_format_map] in Eg. cbn [fmap_depth] in Hd'.
+          destruct (fent_format e') as [f'|] eqn:Ef; cbn [bind] in Eg; [|discriminate].
+          destruct (new_format_map m) as [r'|] eqn:Er; cbn [bind] in Eg; [|discriminate].
+          injection Eg as <-.
+          destruct (IH e' f' ltac:(lia) Ef) as [Hn1 Hd1].
+          destruct (IHm r' eq_refl ltac:(lia)) as (Hn2 & Hd2).
+          split; [constructor; [exact Hn1 | exact Hn2]|].
+          cbn [mdepth fold_right snd fmap_depth]. unfold mdepth in Hd2. lia. }
+      destruct Hm as (Hn & Hd2).
+      split; [apply f_nodef_cf; rewrite Hcf; exact Hn|].
+      rewrite fdepth_cf, Hcf. cbn [cdepth]. lia.
+    + cbn [fent_format bind] in He. pose proof (parse_format_cf _ _ _ _ _ He) as Hcf.
+      split; [apply f_nodef_cf; rewrite Hcf; exact I | rewrite fdepth_cf, Hcf; cbn; lia].
 Qed.
 
 Lemma new_format_map_ok m hm :
@@ -243,6 +235,16 @@ Proof.
 Qed.
 
 (* the flat layout: left delimiter, the element texts joined by separator + space, right delimiter *)
+Lemma arr_rest_flat pad sep rest prev s0 :
+  s0 ++ arr_rest false false pad sep rest prev = join (sep ++ [32%N]) (s0 :: map snd rest).
+Proof.
+  revert prev s0. induction rest as [|[ah s] rest IH]; intros prev s0.
+  - cbn. now rewrite app_nil_r.
+  - cbn [arr_rest map snd orb andb negb]. rewrite andb_false_r.
+    change (join (sep ++ [32%N]) (s0 :: s :: map snd rest)) with (s0 ++ (sep ++ [32%N]) ++ join (sep ++ [32%N]) (s :: map snd rest)).
+    rewrite <- (app_assoc sep [32%N]). do 3 f_equal. apply IH.
+Qed.
+
 Lemma arr_layout_flat f ind delim items :
   f_alt f = false -> i_indenting ind = false ->
   arr_layout f ind delim items =
@@ -253,12 +255,7 @@ Proof.
   intros Ha Hi. unfold arr_layout. rewrite Ha, Hi. cbn [orb andb].
   unfold i_breaks, i_set_indenting. cbn [i_indenting andb].
   destruct (delim_pair _) as [dl dr]. cbn [fst snd app]. f_equal. f_equal.
-  destruct items as [|[ah0 s0] rest]; [reflexivity|]. cbn [map snd negb andb app].
-  revert ah0 s0. induction rest as [|[ah s] rest IH]; intros ah0 s0; [cbn; now rewrite app_nil_r|].
-  cbn [map snd join]. rewrite <- app_assoc. f_equal.
-  destruct rest as [|x rest'].
-  - cbn. rewrite app_nil_r. destruct ah; rewrite <- app_assoc; reflexivity.
-  - rewrite <- (IH ah s). destruct ah; rewrite <- !app_assoc; reflexivity.
+  destruct items as [|[ah0 s0] rest]; [reflexivity|]. cbn [map snd app]. apply arr_rest_flat.
 Qed.
 
 Lemma hash_layout_flat f ind items :
@@ -270,7 +267,7 @@ Lemma hash_layout_flat f ind items :
 Proof.
   intros Ha Hi. unfold hash_layout. rewrite Ha, Hi. cbn [orb andb].
   unfold i_breaks, i_set_indenting. cbn [i_indenting andb].
-  destruct (delim_pair _) as [dl dr]. cbn [fst snd app]. rewrite app_nil_r. reflexivity.
+  destruct (delim_pair _) as [dl dr]. cbn [fst snd app]. reflexivity.
 Qed.
 
 (* Array: under a format f chosen by GetFormat with a letter of the documented set, not alternate,
@@ -289,9 +286,10 @@ Theorem array_recursive n o ind m es f ts :
 Proof.
   intros Hf Hc Ha Hi Hall. cbn [render]. rewrite Hf, Hc. cbn [negb]. rewrite Ha, Hi. cbn [orb negb andb].
   rewrite (map_m_ok _ es (map (fun et => (is_container (fst et), snd et)) (combine es ts))).
-  - cbn [obind]. rewrite (arr_layout_flat f ind 91 _ Ha Hi). do 3 f_equal.
-    rewrite map_map. cbn [snd].
-    clear - Hall. induction Hall as [|e t es ts _ _ IH]; [reflexivity|]. cbn [combine map snd]. now rewrite IH.
+  - cbn [obind]. rewrite (arr_layout_flat f ind 91 _ Ha Hi).
+    assert (Hts : map snd (map (fun et : value * str => (is_container (fst et), snd et)) (combine es ts)) = ts).
+    { clear - Hall. induction Hall as [|e t es ts _ _ IH]; [reflexivity|]. cbn [combine map snd]. now rewrite IH. }
+    rewrite Hts. reflexivity.
   - clear - Hall. induction Hall as [|e t es ts He _ IH]; [constructor|].
     cbn [combine map fst snd]. constructor; [|exact IH]. rewrite He. reflexivity.
 Qed.
